@@ -23,6 +23,10 @@ type Merger struct {
 
 	less    func(a, b *sam.Record) bool
 	readers []*reader
+
+	// err is the first error other than io.EOF returned
+	// by a source.
+	err error
 }
 
 type reader struct {
@@ -98,6 +102,18 @@ func NewMerger(less func(a, b *sam.Record) bool, src ...*Reader) (*Merger, error
 		m.readers[i] = &readers[i]
 	}
 	if m.less != nil {
+		// Only sources that have a head record take part in the
+		// merge; the comparison functions are not defined for nil.
+		live := m.readers[:0]
+		for _, r := range m.readers {
+			switch {
+			case r.err == nil:
+				live = append(live, r)
+			case r.err != io.EOF:
+				return nil, r.err
+			}
+		}
+		m.readers = live
 		heap.Init((*bySortOrderAndID)(m))
 	}
 
@@ -114,6 +130,9 @@ func (m *Merger) Header() *sam.Header {
 //
 // The Read behaviour will depend on the underlying Readers.
 func (m *Merger) Read() (rec *sam.Record, err error) {
+	if m.err != nil {
+		return nil, m.err
+	}
 	if len(m.readers) == 0 {
 		return nil, io.EOF
 	}
@@ -124,34 +143,37 @@ func (m *Merger) Read() (rec *sam.Record, err error) {
 }
 
 func (m *Merger) cat() (rec *sam.Record, err error) {
-	id := m.readers[0].id
-	rec, err = m.readers[0].r.Read()
-	if err == io.EOF && len(m.readers) != 0 {
-		m.readers = m.readers[1:]
-		err = nil
+	for len(m.readers) != 0 {
+		id := m.readers[0].id
+		rec, err = m.readers[0].r.Read()
+		if err == io.EOF {
+			m.readers = m.readers[1:]
+			continue
+		}
+		if err != nil {
+			m.err = err
+			return nil, err
+		}
+		m.reassignReference(id, rec)
+		return rec, nil
 	}
-	if rec == nil {
-		return m.Read()
-	}
-	m.reassignReference(id, rec)
-	return rec, err
+	return nil, io.EOF
 }
 
 func (m *Merger) nextBySortOrder() (rec *sam.Record, err error) {
 	reader := m.pop()
-	rec, err = reader.head, reader.err
+	rec = reader.head
 	reader.head, reader.err = reader.r.Read()
-	if reader.err == nil {
+	switch {
+	case reader.err == nil:
 		m.push(reader)
-	}
-	if rec == nil {
-		return m.Read()
-	}
-	if err == io.EOF {
-		err = nil
+	case reader.err != io.EOF:
+		// rec was read successfully, so return it now and
+		// report the failure of its source on the next call.
+		m.err = reader.err
 	}
 	m.reassignReference(reader.id, rec)
-	return rec, err
+	return rec, nil
 }
 
 func (m *Merger) reassignReference(id int, rec *sam.Record) {
